@@ -38,15 +38,19 @@ Definition c18_cfg : config :=
                    stop_style := StopUntilRunDone; run_exit := ExitOnSignal; held_sub := false |} ];
      startup_may_fire := false; shutdown_may_fire := false |}.
 Definition c18_sched : list label :=
-  [LLaunch 0; LRunStore 0; LRunCall 0; LMonSub 0; LMonRecv 0; LPoll 0 true; LGateDecide 0;
+  [LRunEnter; LRunEntered; LLaunch 0; LRunStore 0; LRunCall 0; LMonSub 0; LMonRecv 0; LPoll 0 true; LGateDecide 0;
    LCall 1 (OpSignal SigHup); LSigPut 1; LRet 1 (OpSignal SigHup); LReapSig; LRmAccept SndHup;
    LReloadCall 0; LReloadRet 0;
    LTrigS 0; LTrigRecvS 0; LStopCall 0; LRunRet 0 None; LStopRet 0; LSdCancel;
    LRmCtx; LRmExit; LSdmExit; LStmExit; LSdWgDone; LReapCtx; LMainShutdown; LMainReturn ResNil].
 Example C18_ex_clean_run :
-  exists s, run (step c18_cfg) (init c18_cfg) c18_sched = Some s /\ census s = 0
-            /\ census (init c18_cfg) = 7.
-Proof. eexists. split; [vm_compute; reflexivity|]. split; vm_compute; reflexivity. Qed.
+  exists s s1, run (step c18_cfg) (init c18_cfg) c18_sched = Some s /\ census s = 0
+            /\ census (init c18_cfg) = 0
+            /\ run (step c18_cfg) (init c18_cfg) (firstn 2 c18_sched) = Some s1 /\ census s1 = 7.
+Proof.
+  eexists. eexists. split; [vm_compute; reflexivity|]. split; [vm_compute; reflexivity|].
+  split; [vm_compute; reflexivity|]. split; vm_compute; reflexivity.
+Qed.
 
 (* ====================================================================================================
    C18 - composite leg (appended; model coq/model/Composite.v, proofs coq/proofs/CompositeCensus.v).
